@@ -545,9 +545,7 @@ theorem new_spec (cap : Nat) (grow : Nat → Nat) (exGe : Nat → Bool) (m : Mem
       by_cases h8 : cap > Gen.CC_MAX_ELEMENTS / 8
       · left; simp [h8]
       · right
-        have hcap : cap ≤ Gen.CC_MAX_ELEMENTS := by
-          have : Gen.CC_MAX_ELEMENTS / 8 ≤ Gen.CC_MAX_ELEMENTS := Nat.div_le_self _ _
-          omega
+        have hcap : cap ≤ Gen.CC_MAX_ELEMENTS / 8 := by omega
         simp only [h8, if_false]
         have ha := alloc2_cases m
         unfold alloc2 at ha ⊢
